@@ -100,8 +100,9 @@ func (a *Analysis) registryMiss(p *Path) (string, bool) {
 
 func (a *Analysis) isRegistryMap(m *Val) bool {
 	r := addrRoot(stripCT(m))
-	for r != nil && r.Op == "init" {
-		r = addrRoot(r.Args[0])
+	for r != nil && (r.Op == "init" || (r.Op == "call" && len(r.Args) > 0) || r.Op == "tassert" || r.Op == "conv") {
+		// follow loads, accessor calls (e.g. an atomic pointer's Load) and conversions back to the variable they start from
+		r = addrRoot(stripCT(r.Args[0]))
 	}
 	if r == nil || r.Op != "global" {
 		return false
@@ -336,13 +337,17 @@ func (a *Analysis) decLayout(ct *CodecType, p *Path) *PathLayout {
 	sink := func(ids []int, loop int) (string, int, *Val, bool) {
 		for _, st := range stores {
 			idx, _ := recvFieldAddr(st.Dst)
+			src := st.Src
+			if len(st.Args) == 1 && st.Args[0] != nil {
+				src = st.Args[0]
+			}
 			for _, id := range ids {
-				if containsWire(st.Src, id) {
-					return c.fieldName(idx), idx, st.Src, true
+				if containsWire(src, id) {
+					return c.fieldName(idx), idx, src, true
 				}
 			}
-			if loop != 0 && containsCollect(st.Src, loop) {
-				return c.fieldName(idx), idx, st.Src, true
+			if loop != 0 && containsCollect(src, loop) {
+				return c.fieldName(idx), idx, src, true
 			}
 		}
 		return "", -1, nil, false
